@@ -474,7 +474,7 @@ func (e *Engine) Replay(ob *Obligation, repo string, scratch string) (out Replay
 		src.WriteString("\t" + d + "\n")
 	}
 	for i, a := range args {
-		src.WriteString(fmt.Sprintf("\ta%d := %s\n", i, a))
+		src.WriteString(fmt.Sprintf("\tvar a%d %s = %s\n", i, r.typeStr(fn.Params[i].Type()), a))
 		src.WriteString(fmt.Sprintf("\t_ = a%d\n", i))
 		out.Inputs = append(out.Inputs, fmt.Sprintf("%s = %s", fn.Params[i].Name(), a))
 	}
